@@ -130,4 +130,15 @@ def verdict (q : Seq) (c : Content) (k : Nat) : List String :=
   (if txIndexAhead q c k then ["tx-index-ahead"] else []) ++
   (if utxoBehind q c k then ["utxo-store-behind-block-store"] else [])
 
+/-! ## Part 3: the status save (consensus/new_status.go saveStatus) -/
+
+/-- saveStatus for last block height h writes, in order: (1) the validator record of h+1, (2) the parameter record of h+1,
+(3) the status itself, then the per-height copies: (4) delete of the copy of height h-10 when h > 10, (5) the copy of h -/
+def statusWrites (h : Nat) : Nat := if h > 10 then 5 else 4
+
+/-- the status record survived a crash at the k-th write -/
+def statusAdvanced (k : Nat) : Bool := applied 3 k
+/-- the records of the next height survived -/
+def nextRecords (k : Nat) : Bool := applied 1 k && applied 2 k
+
 end Model.Stores
